@@ -1,6 +1,8 @@
 mod gen;
 mod hung;
 mod node;
+mod sched;
+mod tree;
 mod sel;
 
 fn arg<T: std::str::FromStr>(args: &[String], name: &str, default: T) -> T {
@@ -54,6 +56,20 @@ fn main() {
             arg(&args, "--max-p", 9usize),
             arg(&args, "--rooms", 2usize),
             arg(&args, "--per-inst", 8usize),
+            shards,
+            &outdir,
+            opt_arg(&args, "--replay"),
+        ),
+        "tree" => tree::run(
+            tree::Plan {
+                seed: arg(&args, "--seed", 1u64),
+                trees: arg(&args, "--trees", 50usize),
+                max_nodes: arg(&args, "--max-nodes", 10usize),
+                scheds_per_tree: arg(&args, "--scheds", 6usize),
+                panics: arg(&args, "--panics", 0usize) != 0,
+                dfs_budget: arg(&args, "--dfs", 0usize),
+                max_k: arg(&args, "--max-k", 4usize),
+            },
             shards,
             &outdir,
             opt_arg(&args, "--replay"),
